@@ -265,6 +265,8 @@ func runC09(c *report.Ctx) {
 	ruleRollbackReverseOrder(c)
 	ruleLayout(c, []string{"outpoint-key", "credit-value"}, 12)
 	ruleRelevantIndex(c, 4)
+	ruleFlagsBeforeFilter(c)
+	ruleConflictWalksOutputs(c)
 }
 
 func loopContainsBlock(hdr, b *ssa.BasicBlock) bool {
